@@ -132,7 +132,7 @@ fn edge_pixels(c: &Cfg) -> Vec<[f32; 3]> {
         (219.0 * k, 16.0 * k, 224.0 * k, 128.0 * k)
     };
     for code in 0..ncodes {
-        for d in [0.0, 0.5 - 1e-3, 0.5 + 1e-3] {
+        for d in [0.0, 0.5 - 1e-3, 0.5, 0.5 + 1e-3] {
             let t = code as f64 + d;
             // luma: neutral axis
             let y = (t - loff) / lscale;
@@ -147,6 +147,56 @@ fn edge_pixels(c: &Cfg) -> Vec<[f32; 3]> {
                     if rgb.iter().all(|v| (-0.5..=1.5).contains(v)) {
                         out.push([rgb[0] as f32, rgb[1] as f32, rgb[2] as f32]);
                     }
+                }
+            }
+        }
+    }
+    out
+}
+
+/// Exact rounding ties at the ends and the middle of the code range: f32 inputs in a +-24-ulp
+/// window around the preimage of -0.5, 0.5, mid+-0.5, max-0.5 and max+0.5 (= 2^n - 0.5) on the
+/// neutral axis and on pure chroma excursions. One ulp of the input moves the scaled value by about
+/// half an ulp of the result, so the window contains inputs whose scaled value is *exactly* the tie.
+fn tie_pixels(c: &Cfg) -> Vec<[f32; 3]> {
+    let n = c.n as u32;
+    let max = ((1u64 << n) - 1) as f64;
+    let (lscale, loff, cscale, coff) = if c.full {
+        (max, 0.0, max, (1u64 << (n - 1)) as f64)
+    } else {
+        let k = (1u64 << (n - 8)) as f64;
+        (219.0 * k, 16.0 * k, 224.0 * k, 128.0 * k)
+    };
+    let mut out = vec![];
+    let window = |x: f32, out: &mut Vec<f32>| {
+        let b = x.to_bits() as i64;
+        for d in -24i64..=24 {
+            let v = f32::from_bits((b + d) as u32);
+            if v.is_finite() {
+                out.push(v);
+            }
+        }
+    };
+    for t in [-0.5, 0.5, max - 0.5, max + 0.5, (max + 1.0) / 2.0 - 0.5, (max + 1.0) / 2.0 + 0.5] {
+        let mut ys = vec![];
+        window(((t - loff) / lscale) as f32, &mut ys);
+        for y in ys {
+            if (-0.5..=1.5).contains(&y) {
+                out.push([y; 3]);
+            }
+        }
+        let cc = (t - coff) / cscale;
+        for plane in 1..3 {
+            let rgb = if plane == 1 { ypbpr_to_rgb(c.m, 0.5, cc, 0.0) } else { ypbpr_to_rgb(c.m, 0.5, 0.0, cc) };
+            // vary the channel that drives this chroma component most (B for Cb, R for Cr)
+            let drive = if plane == 1 { 2 } else { 0 };
+            let mut vs = vec![];
+            window(rgb[drive] as f32, &mut vs);
+            for v in vs {
+                let mut p = [rgb[0] as f32, rgb[1] as f32, rgb[2] as f32];
+                p[drive] = v;
+                if p.iter().all(|x| (-0.5..=1.5).contains(x)) {
+                    out.push(p);
                 }
             }
         }
@@ -216,9 +266,28 @@ pub fn run(tier: Tier) -> Report {
         });
         rep.acc.merge(acc);
         base += edges.len() as u64;
+        // two large images per config (cycling the lattice)
+        if !light() {
+            for &big in BIG_SIZES.iter() {
+                let px: Vec<[f32; 3]> = (0..big as u64).map(|k| { let i = (k * 7919) % total; [alpha[(i / (al * al)) as usize], alpha[((i / al) % al) as usize], alpha[(i % al) as usize]] }).collect();
+                let mut acc = Acc::default();
+                check_batch(&mut acc, c, "large-image", base, &px);
+                refine_violations(&mut acc, base, &px, 1, &|a, it| check_batch(a, c, "large-image", 0, it), &pxs_json);
+                rep.acc.merge(acc);
+            }
+        }
+        // exact ties at the ends of the code range
+        let ties = tie_pixels(c);
+        if !ties.is_empty() {
+            let mut acc = Acc::default();
+            check_batch(&mut acc, c, "exact-tie", base, &ties);
+            refine_violations(&mut acc, base, &ties, 1, &|a, it| check_batch(a, c, "exact-tie", 0, it), &pxs_json);
+            rep.acc.merge(acc);
+            base += ties.len() as u64;
+        }
     }
     rep.bound = format!(
-        "140 configs x [ full product of a {}-value axis alphabet on [-0.5,1.5] (step {}, f32 neighbours of 0, .25, .5, .75, 1, the interval ends, -0.0) = {} pixels; rounding-edge preimages of EVERY code of every plane at offsets 0, .5-1e-3, .5+1e-3 ({} pixels over all configs); 8 gamut corners + out-of-gamut extremes ]",
+        "140 configs x [ full product of a {}-value axis alphabet on [-0.5,1.5] (step {}, f32 neighbours of 0, .25, .5, .75, 1, the interval ends, -0.0) = {} pixels; rounding-edge preimages of EVERY code of every plane at offsets 0, .5-1e-3, .5 (the exact tie), .5+1e-3, plus +-24-ulp input windows around the exact ties at -0.5, 0.5, mid+-0.5, max-0.5 and max+0.5 ({} pixels over all configs); 8 gamut corners + out-of-gamut extremes ]",
         al, tier.pick("0.025", "0.005"), al * al * al, edge_total
     );
     rep.rule = "each RGB pixel is encoded by the real Yuv::<T>::try_from((&Rgb, cfg)); the code read with Plane::p must be within 0.5 + 1e-6*2^n of the f64 H.273 quantisation of the actual f32 inputs; config, dims and plane sizes must be as requested".into();
@@ -234,7 +303,7 @@ pub fn replay(case: &Value) -> (bool, String) {
     let px = px3_from(&case["rgb"]);
     let mut acc = Acc::default();
     let (items, shape) = replay_items(case, vec![px], &pxs_from);
-    for stratum in ["lattice", "rounding-edge", "corners"] {
+    for stratum in ["lattice", "rounding-edge", "corners", "exact-tie", "large-image"] {
         with_shape(shape, || check_batch(&mut acc, &c, stratum, 0, &items));
     }
     match acc.viols.values().next() {
